@@ -164,12 +164,16 @@ type faultSeries struct {
 }
 
 func (f *faultSeries) Labels() labels.Labels {
-	f.q.fault("Series.Labels")
+	if f.q.FaultMode >= 2 { // these callbacks cannot return an error, only panic
+		f.q.fault("Series.Labels")
+	}
 	return f.Series.Labels()
 }
 
 func (f *faultSeries) Iterator() chunkenc.Iterator {
-	f.q.fault("Series.Iterator")
+	if f.q.FaultMode >= 2 {
+		f.q.fault("Series.Iterator")
+	}
 	return f.Series.Iterator()
 }
 func (s *seriesSet) Err() error                 { return s.err }
